@@ -15,7 +15,7 @@
 //! children running `exec` — the ASan build (`LM_FP_ASAN_BIN`) and this debug build —
 //! restarts a child that died and attributes the death to the case whose `BEGIN`
 //! was the last one printed; it prints
-//!     <input line> => asan=<CLEAN|PANIC|ASAN(kind)|CRASH(sig)|NOASAN> [rel=<same, release-mode sanitizer build>] dbg=<CLEAN|PANIC|CRASH(sig)> dbg2=<same, start-aligned guard pages> :: <records>
+//!     <input line> => asan=<CLEAN|PANIC|ASAN(kind)|CRASH(sig)|NOASAN> [rel=<same, release-mode sanitizer build>] dbg=<CLEAN|PANIC|CRASH(sig)> dbg2=<same, start-aligned guard pages> [msan=<CLEAN|PANIC|MSAN(kind)|CRASH|NOMSAN>] :: <records>
 #![allow(unexpected_cfgs)]
 use std::io::{BufRead, BufReader, Write};
 use std::ops::Range;
@@ -49,6 +49,73 @@ use lmh::*;
 extern "C" {
     fn __asan_poison_memory_region(addr: *const u8, size: usize);
     fn __asan_unpoison_memory_region(addr: *const u8, size: usize);
+}
+
+// ------------------------------------------------ MemorySanitizer child (`--cfg lm_msan`, -Zbuild-std)
+//
+// Initialisation tracking: the sanitizer keeps one shadow bit per bit of memory (set by malloc, cleared by
+// instrumented stores).  After the ops that start from uninitialised storage (`DenseMatrix::uninitialized`
+// behind sample / from_rows, the rows+32 spare rows of stripe, resize, encode_raw's set_len buffer) the
+// harness asks for the shadow of every LOGICAL cell of the result (`__msan_test_shadow`; the tail padding of
+// a row is never written by anybody and is not a cell): "every cell that can be read was written before".
+#[cfg(lm_msan)]
+extern "C" {
+    fn __msan_test_shadow(x: *const u8, size: usize) -> isize;
+    fn __msan_unpoison(x: *const u8, size: usize);
+}
+
+/// The tail padding of the rows (stride > columns) is written by nobody (Rust never initialises struct
+/// padding) and is not a cell; the AVX2/SSE2 kernels load it together with the cells of a row (the footprint
+/// model lists these loads) and select lanes below K only.  The sanitizer tracks such lanes through
+/// `vpermps`/`pshufb` conservatively, so the harness declares the padding of the matrices it hands to the
+/// kernels initialised; whatever the sanitizer reports afterwards comes from a cell (or other memory).
+#[allow(unused_variables)]
+fn bless_padding<T: MatrixElement, C: ArrayLength>(m: &DenseMatrix<T, C>) {
+    #[cfg(lm_msan)]
+    {
+        let es = std::mem::size_of::<T>();
+        if m.stride() > C::USIZE {
+            for r in 0..m.rows() {
+                let p = m[r].as_ptr() as *const u8;
+                unsafe { __msan_unpoison(p.add(C::USIZE * es), (m.stride() - C::USIZE) * es) };
+            }
+        }
+    }
+}
+
+/// Initialisation verdict of the harness itself: a logical cell of `what` that was never written.
+fn cell_check(what: &str, off: i64) {
+    if off >= 0 {
+        eprintln!("ERROR: MemorySanitizer: never-written-cell at byte {} of {}", off, what);
+        std::process::exit(98);
+    }
+}
+
+/// Byte offset (within the matrix) of the first logical cell byte that was never written, or -1.
+#[allow(unused_variables)]
+fn first_uninit_cell<T: MatrixElement, C: ArrayLength>(m: &DenseMatrix<T, C>) -> i64 {
+    #[cfg(lm_msan)]
+    {
+        let es = std::mem::size_of::<T>();
+        for r in 0..m.rows() {
+            let p = m[r].as_ptr() as *const u8;
+            let k = unsafe { __msan_test_shadow(p, C::USIZE * es) };
+            if k >= 0 {
+                return (r * m.stride() * es) as i64 + k as i64;
+            }
+        }
+    }
+    -1
+}
+
+#[allow(unused_variables)]
+fn first_uninit_slice<T>(v: &[T]) -> i64 {
+    #[cfg(lm_msan)]
+    {
+        return unsafe { __msan_test_shadow(v.as_ptr() as *const u8, std::mem::size_of_val(v)) } as i64;
+    }
+    #[allow(unreachable_code)]
+    -1
 }
 
 const ASAN_OPTIONS: &str =
@@ -101,7 +168,7 @@ impl Drop for Poisoned {
 // placed by this allocator so that it ENDS at a page boundary followed by an inaccessible page (and is
 // preceded by one): any instruction that touches a byte past the allocation faults (SIGSEGV), which the
 // orchestrator reports for the op that was running.
-#[cfg(not(lm_asan))]
+#[cfg(not(any(lm_asan, lm_msan)))]
 mod guard_alloc {
     use std::alloc::{GlobalAlloc, Layout, System};
     const PAGE: usize = 4096;
@@ -157,7 +224,7 @@ mod guard_alloc {
     }
 }
 
-#[cfg(not(lm_asan))]
+#[cfg(not(any(lm_asan, lm_msan)))]
 #[global_allocator]
 static GLOBAL: guard_alloc::GuardAlloc = guard_alloc::GuardAlloc;
 
@@ -473,6 +540,18 @@ fn run_ops<A: AbcX>(be: &str, seed: u64, ops: &[&str]) -> String {
         let mut rng = Rng::new(seed ^ ((k as u64 + 1) << 32));
         let p: Vec<&str> = op.split(':').collect();
         progress(k, p[0]);
+        // (sanitizer children only; no-ops elsewhere)
+        bless_padding(st.striped.matrix());
+        bless_padding(st.pssm.matrix());
+        bless_padding(st.dm.matrix());
+        bless_padding(st.fs.matrix());
+        bless_padding(st.us.matrix());
+        // Scanner and Sampler build scoring matrices of their own (row padding written by nobody) and score them
+        // with the SIMD kernels, whose padding lanes the sanitizer cannot tell from cells: not run in this child
+        if cfg!(lm_msan) && matches!(p[0], "scan" | "gibbs") {
+            out.push(format!("{}||not-run-under-msan", p[0]));
+            continue;
+        }
         let rec: String = match p[0] {
             // ------------------------------------------------------ encoding
             "encuse" => {
@@ -799,6 +878,13 @@ fn run_ops<A: AbcX>(be: &str, seed: u64, ops: &[&str]) -> String {
             },
             _ => panic!("bad op {}", op),
         };
+        // every logical cell of every buffer of the history was written by somebody
+        cell_check("the symbol vector", first_uninit_slice(&st.enc[..]));
+        cell_check("the striped sequence matrix", first_uninit_cell(st.striped.matrix()));
+        cell_check("the scoring matrix", first_uninit_cell(st.pssm.matrix()));
+        cell_check("the discrete matrix", first_uninit_cell(st.dm.matrix()));
+        cell_check("the f32 score matrix", first_uninit_cell(st.fs.matrix()));
+        cell_check("the u8 score matrix", first_uninit_cell(st.us.matrix()));
         out.push(rec);
     }
     force("none");
@@ -875,7 +961,11 @@ where
             pssm.matrix().stride(),
             fs.matrix().stride()
         );
+        bless_padding(striped.matrix());
+        bless_padding(pssm.matrix());
         let r = no_panic(|| pli.score_rows_into(&pssm, &striped, rows.clone(), &mut fs));
+        cell_check("the striped sequence matrix", first_uninit_cell(striped.matrix()));
+        cell_check("the f32 score matrix", first_uninit_cell(fs.matrix()));
         let rec = match r {
             None => format!("score|{}|P", params),
             Some(()) => format!("score|{}|{},{}", params, fs.matrix().rows(), fs.matrix().capacity()),
@@ -967,6 +1057,7 @@ fn run_dense<T: Val, C: lightmotif::num::ArrayLength>(ops: &[&str]) -> String {
     let mut out = Vec::new();
     for op in ops {
         let p: Vec<&str> = op.split(':').collect();
+        progress(out.len(), p[0]);
         let pre = format!("es={},C={},rows0={},cap0={},st={}", std::mem::size_of::<T>(), C::USIZE, m.rows(), m.capacity(), m.stride());
         let mm = &mut m;
         // fill / set / sum never reallocate: rows beyond rows() are not theirs to touch
@@ -1021,6 +1112,7 @@ fn run_dense<T: Val, C: lightmotif::num::ArrayLength>(ops: &[&str]) -> String {
             0
         });
         drop(guard);
+        cell_check("the dense matrix", first_uninit_cell(&m));
         match r {
             None => out.push(format!("d{}|{},arg={},arg2={}|P", p[0], pre, p.get(1).unwrap_or(&"0"), p.get(2).unwrap_or(&"0"))),
             Some(_) => out.push(format!("d{}|{},arg={},arg2={}|{},{}", p[0], pre, p.get(1).unwrap_or(&"0"), p.get(2).unwrap_or(&"0"), m.rows(), m.capacity())),
@@ -1303,6 +1395,8 @@ fn run_child(exe: &str, asan: bool, lines: &[String]) -> Vec<ChildOut> {
     run_child_env(exe, asan, lines, None)
 }
 
+const MSAN_OPTIONS: &str = "halt_on_error=1:exit_code=98:symbolize=0:print_stats=0";
+
 fn run_child_env(exe: &str, asan: bool, lines: &[String], guard: Option<&str>) -> Vec<ChildOut> {
     let mut res: Vec<ChildOut> = Vec::with_capacity(lines.len());
     let mut next = 0usize;
@@ -1320,6 +1414,7 @@ fn run_child_env(exe: &str, asan: bool, lines: &[String], guard: Option<&str>) -
         cmd.arg("exec").stdin(Stdio::piped()).stdout(Stdio::piped()).stderr(Stdio::piped());
         if asan {
             cmd.env("ASAN_OPTIONS", ASAN_OPTIONS);
+            cmd.env("MSAN_OPTIONS", MSAN_OPTIONS);
         }
         match guard {
             Some(g) => cmd.env("LM_FP_GUARD", g),
@@ -1415,6 +1510,9 @@ fn run_child_env(exe: &str, asan: bool, lines: &[String], guard: Option<&str>) -
             let verdict = if hung.load(std::sync::atomic::Ordering::SeqCst) {
                 hangs += 1;
                 format!("HANG@{}", lastop)
+            } else if let Some(pos) = err.find("MemorySanitizer:") {
+                let kind: String = err[pos + 16..].trim_start().chars().take_while(|c| !c.is_whitespace()).collect();
+                format!("MSAN({})@{}", kind, lastop)
             } else if let Some(pos) = err.find("ERROR: AddressSanitizer:") {
                 let kind: String = err[pos + 24..].trim_start().chars().take_while(|c| !c.is_whitespace()).collect();
                 format!("ASAN({})@{}", kind, lastop)
@@ -1578,7 +1676,7 @@ fn crashme(kind: &str) {
 }
 
 fn main() {
-    #[cfg(not(lm_asan))]
+    #[cfg(not(any(lm_asan, lm_msan)))]
     if std::env::var("LM_FP_GUARD").map(|v| v == "start").unwrap_or(false) {
         guard_alloc::START.store(true, std::sync::atomic::Ordering::Relaxed);
     }
@@ -1626,14 +1724,20 @@ fn main() {
             // plain build once more with start-aligned guard pages (under-runs of the matrices)
             let (l4, me4) = (lines.clone(), me.clone());
             let t4 = std::thread::spawn(move || run_child_env(&me4, false, &l4, Some("start")));
+            // optional: MemorySanitizer build (initialisation tracking)
+            let msan_bin = std::env::var("LM_FP_MSAN_BIN").ok().filter(|s| !s.is_empty());
+            let l5 = lines.clone();
+            let t5 = msan_bin.map(|b| std::thread::spawn(move || run_child(&b, true, &l5)));
             let dbg = run_child(&me, false, &lines);
             let asan = t.join().unwrap();
             let rel = t3.map(|t| t.join().unwrap());
             let dbg2 = t4.join().unwrap();
+            let msan = t5.map(|t| t.join().unwrap());
             for (i, l) in lines.iter().enumerate() {
                 let recs = asan[i].records.clone().or_else(|| dbg[i].records.clone()).unwrap_or_else(|| "-".to_string());
                 let relv = rel.as_ref().map(|r| format!(" rel={}", r[i].verdict)).unwrap_or_default();
-                println!("{} => asan={}{} dbg={} dbg2={} :: {}", l, asan[i].verdict, relv, dbg[i].verdict, dbg2[i].verdict, recs);
+                let msanv = msan.as_ref().map(|r| format!(" msan={}", r[i].verdict.replace("NOASAN", "NOMSAN"))).unwrap_or_default();
+                println!("{} => asan={}{} dbg={} dbg2={}{} :: {}", l, asan[i].verdict, relv, dbg[i].verdict, dbg2[i].verdict, msanv, recs);
             }
         }
         "crashme" => {
